@@ -323,8 +323,8 @@ theorem matchKeywordO_ok : ∀ (ks : List Nat) (inp acc rd r : List RP),
       simpa using this
     · cases h
 
-theorem stepWrappedGraphO_ok (e : End) {x : EctxO} (env : Env) {s : S} (hOn : On s) (hx : CtxIn (txt s) x)
-    (c : RP) (rest : List RP) : StepOK s (c :: rest) (stepWrappedGraphO e x env s (.rune c rest)) := by
+theorem stepWrappedGraphO_ok (dbl : Bool) (e : End) {x : EctxO} (env : Env) {s : S} (hOn : On s) (hx : CtxIn (txt s) x)
+    (c : RP) (rest : List RP) : StepOK s (c :: rest) (stepWrappedGraphO dbl e x env s (.rune c rest)) := by
   obtain ⟨hs, hp, hg⟩ := hx
   simp only [stepWrappedGraphO]
   split
@@ -442,7 +442,7 @@ theorem stepStatementRuneO_ok (C : CfgO) (e : End) {x : EctxO} (env : Env) {s : 
       · split
         · exact stepKwSpaceO_ok C e env hOn hx _ _ c rest
         · split
-          · exact stepWrappedGraphO_ok e env hOn hx c rest
+          · exact stepWrappedGraphO_ok C.dbl e env hOn hx c rest
           · exact stepSubjectStartO_ok C e env hOn hx c rest
 
 theorem stepCollectionO_ok {x : EctxO} (env : Env) {s : S} (hOn : On s) (hx : CtxIn (txt s) x) (c : RP)
@@ -898,7 +898,7 @@ theorem stepFnO_ok (C : CfgO) (e : End) (k : Cont) {r : Rg} {x : EctxO} (env : E
   | wrappedGraph =>
     cases a with
     | fail => exact stepOK_err _ _ _ _
-    | rune c rest => exact stepWrappedGraphO_ok e env hOn hx' c rest
+    | rune c rest => exact stepWrappedGraphO_ok C.dbl e env hOn hx' c rest
   | wrappedGraphEnd =>
     cases a with
     | fail => exact stepOK_err _ _ _ _
